@@ -480,7 +480,7 @@ func VerifC13Layout() {
 	if nd.Param("TWO", 0) == 1 {
 		kind2 := nd.Choose("transform2", c13Kinds-1) // the final-newline variant only once
 		nd.Assume(!(kind == 6 && kind2 >= 5 && kind2 <= 7)) // text transformations need concrete text: they compose with a renaming as the FIRST step only
-		nd.Assume(!(kind <= 1 && kind2 <= 1))        // two insertions at independent places square the cost; each is covered alone and with every in-place transformation
+		nd.Assume(kind >= 2) // line insertions are composed as the second step only (same variants, half the cost)        // two insertions at independent places square the cost; each is covered alone and with every in-place transformation
 		vs2, texts2, what2, ok2 := c13Transform(vs, kind2)
 		nd.Assume(ok2)
 		// line indexes of the first transformation's comments shift if the second inserted above them
